@@ -6,6 +6,7 @@
 //! terminators, '>' at line start opens a record), the generator's own knowledge of raggedness,
 //! and the input records for the write -> read laws.
 
+mod indexio;
 mod paths;
 mod reuse;
 
@@ -625,8 +626,32 @@ fn fasta_case(s: &FileSpec, rd: Rd, mode: Mode, complete_regions: bool, c: &Coun
     }
     c.index_records.fetch_add(got.len() as u64, Relaxed);
 
-    // ---- queries ----
+    // ---- the index through fai::io::Writer -> text -> fai::io::Reader / async reader ----
     let index = fai::Index::from(records);
+    let want_text: Option<Vec<u8>> = if s.ragged == Ragged::None {
+        let mut t = Vec::new();
+        for n in &naive {
+            t.extend_from_slice(&n.name);
+            t.extend_from_slice(format!("\t{}\t{}\t{}\t{}\n", n.length, n.offset, n.line_bases, n.line_width).as_bytes());
+        }
+        Some(t)
+    } else {
+        None
+    };
+    let io_violation = |stage: &str, exp: String, obs: String| {
+        let shape = if naive.iter().any(|n| n.line_width == n.line_bases) { "line_width-equals-line_bases" } else { "regular" };
+        vio(format!("op=index-io stage={stage} container={} shape={shape} symptom=differs", rd.container()), describe(""), exp, obs)
+    };
+    let index = match indexio::fai_roundtrip(&index, want_text.as_deref()) {
+        Ok(ix) => ix,
+        Err((stage, exp, obs)) => {
+            if mode == Mode::Beyond {
+                return Ok(());
+            }
+            return Err(io_violation(stage, exp, obs));
+        }
+    };
+    // every query below goes through the re-read index
     match rd {
         Rd::Plain(cap) => {
             let inner = BufReader::with_capacity(cap, Cursor::new(plain.clone()));
@@ -635,7 +660,16 @@ fn fasta_case(s: &FileSpec, rd: Rd, mode: Mode, complete_regions: bool, c: &Coun
         }
         Rd::Bgzf { .. } => {
             let b = bgz.as_ref().unwrap();
-            let inner = bgzf::io::IndexedReader::new(Cursor::new(b.bytes.clone()), bgzf::gzi::Index::from(b.gzi.clone()));
+            let gzi = match indexio::gzi_roundtrip(&b.gzi) {
+                Ok(g) => g,
+                Err((stage, exp, obs)) => {
+                    if mode == Mode::Beyond {
+                        return Ok(());
+                    }
+                    return Err(io_violation(stage, exp, obs));
+                }
+            };
+            let inner = bgzf::io::IndexedReader::new(Cursor::new(b.bytes.clone()), gzi);
             let mut reader = fasta::io::IndexedReader::new(inner, index);
             query_all(&mut reader, s, rd, mode, complete_regions, &naive, &plain, c, &describe)
         }
@@ -1028,8 +1062,15 @@ fn fasta_write_read(recs: &[FaRec], width: usize, cap: usize, c: &Counters) -> O
                         format!("{got:?}"),
                     ));
                 }
+                // the index through the fai writer and readers; the repository below uses the re-read index
+                let v = match indexio::fai_roundtrip(&fai::Index::from(v), None) {
+                    Ok(ix) => ix,
+                    Err((stage, exp, obs)) => {
+                        return Err(vio(format!("fmt=fasta op=index-io stage={stage} width={wcls} symptom=differs"), format!("{}; written = {}", describe(), lit(&bytes)), exp, obs));
+                    }
+                };
                 // repository over the indexed reader returns every whole sequence
-                let ir = fasta::io::IndexedReader::new(BufReader::with_capacity(cap, Cursor::new(bytes.clone())), fai::Index::from(v));
+                let ir = fasta::io::IndexedReader::new(BufReader::with_capacity(cap, Cursor::new(bytes.clone())), v);
                 let repo = fasta::Repository::new(fasta::repository::adapters::IndexedReader::new(ir));
                 for (i, r) in recs.iter().enumerate() {
                     let name_token: &[u8] = r.name.as_bytes();
@@ -1135,9 +1176,13 @@ fn fastq_write_read(recs: &[FqRec], sep: u8, cap: usize) -> Outcome {
     // FASTQ index of the written file against a naive four-line parse
     let mut ix = fastq::io::Indexer::new(BufReader::with_capacity(cap, &bytes[..]));
     let mut got = Vec::new();
+    let mut fq_index: Vec<fastq::fai::Record> = Vec::new();
     for _ in 0..recs.len() + 2 {
         match ix.index_record() {
-            Ok(Some(r)) => got.push((r.name().to_string(), r.length(), r.sequence_offset(), r.line_bases(), r.line_width(), r.quality_scores_offset())),
+            Ok(Some(r)) => {
+                got.push((r.name().to_string(), r.length(), r.sequence_offset(), r.line_bases(), r.line_width(), r.quality_scores_offset()));
+                fq_index.push(r);
+            }
             Ok(None) => break,
             Err(e) => {
                 return Err(vio(
@@ -1166,6 +1211,11 @@ fn fastq_write_read(recs: &[FqRec], sep: u8, cap: usize) -> Outcome {
             format!("{got:?}"),
         ));
     }
+    // the index records through fastq::fai::io::Writer -> text -> Reader + FromStr
+    if let Err((stage, exp, obs)) = indexio::fastq_fai_roundtrip(&fq_index, &want) {
+        let shape = if recs.iter().any(|r| r.seq.is_empty()) { "empty-sequence" } else { "regular" };
+        return Err(vio(format!("fmt=fastq op=index-io stage={stage} shape={shape} symptom=differs"), format!("{}; written = {}", describe(), lit(&bytes)), exp, obs));
+    }
     Ok(())
 }
 
@@ -1179,7 +1229,7 @@ fn main() {
              or bgzipped in 7-byte blocks with a harness-built gzi, with/without the EOF-block entry) and inside each case every record x every region \
              start..=end with 1<=start<=end<=len+3 plus start.., ..=end and .. (wide geometries: boundary positions only in the quick tier, all in thorough). \
              distinct = distinct (file bytes, reader configuration) pairs; states = (file, reader, record) triples whose complete region set was checked. \
-             fasta_write_read / fastq_write_read: every record tuple of the listed alphabets x line width {1..5,60,unlimited} x capacity. fasta_query_sequences: 6 documents written to a per-process temporary directory (below / above the 8 KiB BufReader capacity, LF / CRLF, with .fai and bgzipped + .gzi) x 8 public reader constructions (indexed_reader::Builder::build_from_path on .fa and .fa.gz, set_index + build_from_path, fasta::io::BufReader::Uncompressed over File / Cursor / 16-byte BufReader, BufReader::Bgzf over Cursor, Reader::query over Bgzf<File>) x every ordered pair and triple of 9 operations on ONE reader object (7 regions: start, line-crossing, near the end, far apart, whole record, first and last record; 2 sequential seek + read_definition + read_sequence), every answer against the naive parse. fastq_reuse / fasta_reuse: every ordered pair and triple of a presence-spanning record set (description present/absent, long/short/empty name, sequence, qualities) x capacity {8192,1,3}, each file read with one reused record (clean, pre-dirtied with longer content), a fresh record per read and the iterator.",
+             fasta_write_read / fastq_write_read: every record tuple of the listed alphabets x line width {1..5,60,unlimited} x capacity. fasta_geometry also sends every accepted index through fai::io::Writer -> text (== the harness rendering of the naive parse) -> fai::io::Reader and the async reader (== the indexer's index), every query then uses the re-read index; the gzi of every bgzipped twin likewise through gzi::io::Writer/Reader/async reader; the FASTQ index records through fastq::fai::io::Writer -> Reader + FromStr. fasta_query_sequences: 9 documents (three with a one-line last record and no final newline: line_width == line_bases; .fai next to .fa.gz and .gzi written by fai::fs::write / gzi::fs::write and re-read by fs::read and build_from_path) written to a per-process temporary directory (below / above the 8 KiB BufReader capacity, LF / CRLF, with .fai and bgzipped + .gzi) x 8 public reader constructions (indexed_reader::Builder::build_from_path on .fa and .fa.gz, set_index + build_from_path, fasta::io::BufReader::Uncompressed over File / Cursor / 16-byte BufReader, BufReader::Bgzf over Cursor, Reader::query over Bgzf<File>) x every ordered pair and triple of 9 operations on ONE reader object (7 regions: start, line-crossing, near the end, far apart, whole record, first and last record; 2 sequential seek + read_definition + read_sequence), every answer against the naive parse. fastq_reuse / fasta_reuse: every ordered pair and triple of a presence-spanning record set (description present/absent, long/short/empty name, sequence, qualities) x capacity {8192,1,3}, each file read with one reused record (clean, pre-dirtied with longer content), a fresh record per read and the iterator.",
         );
         ctx.assume("miniz_oxide deflate + crc32fast (harness BGZF block maker) are correct");
         ctx.assume("std::io::BufReader / Cursor implement BufRead + Seek as documented");
